@@ -94,11 +94,17 @@ def apply_stubs(names):
                         with NoTracing():  # isinstance/type are themselves modelled under tracing
                             is_num = isinstance(v, (B.SymbolicInt, B.SymbolicFloat))
                             is_container = type(v) in (list, dict, tuple)
+                            # plain objects: format(obj, "") is str(obj); CrossHair's format() would
+                            # deep-realise the object (and every symbolic atom inside it) first
+                            is_plain_obj = (not isinstance(v, B.CrossHairValue)) and getattr(type(v), "__format__", None) is object.__format__
                         if is_num:
                             self.formatted = "<num>"
                             return ""
                         if is_container:
                             self.formatted = repr(v)
+                            return ""
+                        if is_plain_obj:
+                            self.formatted = str(v)
                             return ""
                     return orig_format(self, fmt)
 
